@@ -9,6 +9,8 @@ import (
 	"sort"
 	"strings"
 
+	"golang.org/x/tools/go/callgraph"
+	"golang.org/x/tools/go/callgraph/cha"
 	"golang.org/x/tools/go/packages"
 	"golang.org/x/tools/go/ssa"
 	"golang.org/x/tools/go/ssa/ssautil"
@@ -28,6 +30,9 @@ type Engine struct {
 	loadSecs  float64
 	nonNilGlobals map[string]bool
 	initOnly map[string]bool
+	cg *callgraph.Graph
+	protected map[string]map[string]bool
+	reachMemo map[*ssa.Function]map[string]bool
 	constInit map[string]*ssa.Const
 	constInitN map[string]int
 }
@@ -387,4 +392,96 @@ func (e *Engine) initOnlyGlobals() map[string]bool {
 		}
 	}
 	return e.initOnly
+}
+
+// callGraph returns the CHA call graph of the loaded program (built once).
+func (e *Engine) callGraph() *callgraph.Graph {
+	if e.cg == nil {
+		e.cg = cha.CallGraph(e.prog)
+	}
+	return e.cg
+}
+
+// mayReach reports whether fn may (transitively, by class-hierarchy analysis) call one of
+// the functions in targets (contract-style names "pkgpath::Target").
+func (e *Engine) mayReach(fn *ssa.Function, targets map[string]bool) bool {
+	key := fn
+	if e.reachMemo == nil {
+		e.reachMemo = map[*ssa.Function]map[string]bool{}
+	}
+	// compute (lazily) the set of target names reachable from fn
+	reach, ok := e.reachMemo[key]
+	if !ok {
+		reach = map[string]bool{}
+		cg := e.callGraph()
+		seen := map[*ssa.Function]bool{}
+		var stack []*ssa.Function
+		stack = append(stack, fn)
+		for len(stack) > 0 {
+			cur := stack[len(stack)-1]
+			stack = stack[:len(stack)-1]
+			if seen[cur] {
+				continue
+			}
+			seen[cur] = true
+			if isRepoPkg(funcPkgPath(cur)) {
+				reach[funcPkgPath(cur)+"::"+funcTarget(cur)] = true
+			}
+			if n := cg.Nodes[cur]; n != nil {
+				for _, out := range n.Out {
+					if !seen[out.Callee.Func] {
+						stack = append(stack, out.Callee.Func)
+					}
+				}
+			}
+			// closures created by cur may be invoked later by anyone holding them
+			for _, af := range cur.AnonFuncs {
+				if !seen[af] {
+					stack = append(stack, af)
+				}
+			}
+		}
+		e.reachMemo[key] = reach
+	}
+	for t := range targets {
+		if reach[t] {
+			return true
+		}
+	}
+	return false
+}
+
+// preservedBy returns the protected regions that the call at ins (in function caller)
+// cannot modify: none of its possible callees may reach a writer of the region.
+func (e *Engine) preservedBy(caller *ssa.Function, ins ssa.Instruction, static *ssa.Function) map[string]bool {
+	if len(e.protected) == 0 {
+		return nil
+	}
+	var callees []*ssa.Function
+	if static != nil {
+		callees = []*ssa.Function{static}
+	} else if n := e.callGraph().Nodes[caller]; n != nil {
+		for _, out := range n.Out {
+			if out.Site != nil && ssa.Instruction(out.Site) == ins {
+				callees = append(callees, out.Callee.Func)
+			}
+		}
+	}
+	keep := map[string]bool{}
+	for region, writers := range e.protected {
+		ok := true
+		for _, c := range callees {
+			if e.mayReach(c, writers) {
+				ok = false
+				if os.Getenv("GOVC_DEBUG_FRAME") != "" {
+					fmt.Fprintf(os.Stderr, "frame: %s: call at %s may reach a writer of %s via %s\n", caller.Name(), e.pos(ins.Pos()), region, c.String())
+				}
+				break
+			}
+		}
+		if ok {
+			keep[region] = true
+		}
+	}
+	return keep
 }
